@@ -95,7 +95,7 @@ Print Assumptions C18_value_ctx_equiv.
 (* ---- unknown for_each ----------------------------------------------------------------------------- *)
 Theorem C18_unknown_for_each_single_unknown_block :
   forall s pre post fctx i m0 t fe it les content n v ds ls,
-    afind t (s_blocks s) = Some n ->
+    afind_last t (s_blocks s) = Some n ->
     (lenZ les =? n) = true ->
     value fctx fe = (v, ds) ->
     has_errors ds = false -> has_unsupported ds = false ->
@@ -119,7 +119,7 @@ Print Assumptions C18_unknown_for_each_single_unknown_block.
 (* ---- empty for_each, iteration order ------------------------------------------------------------------ *)
 Theorem C18_empty_for_each_no_blocks :
   forall s b fctx i m0 t fe it les content n v ds,
-    afind t (s_blocks s) = Some n ->
+    afind_last t (s_blocks s) = Some n ->
     (lenZ les =? n) = true ->
     value fctx fe = (v, ds) ->
     has_errors ds = false -> has_unsupported ds = false ->
@@ -134,7 +134,7 @@ Print Assumptions C18_empty_for_each_no_blocks.
 
 Theorem C18_iteration_order :
   forall s b fctx i m0 t fe it les content n v ds,
-    afind t (s_blocks s) = Some n ->
+    afind_last t (s_blocks s) = Some n ->
     (lenZ les =? n) = true ->
     value fctx fe = (v, ds) ->
     has_errors ds = false -> has_unsupported ds = false ->
